@@ -5,6 +5,7 @@
 //   lsmv batch <profile> <seed0> <count> <n_ops> <outdir> <scratch> [blob]
 //                                                       gen+run many; writes <seed>.hist/.trace
 
+mod corrupt;
 mod drive;
 mod gen;
 mod ops;
@@ -72,6 +73,22 @@ fn main() {
             let shared = args[7] == "shared";
             let mut rng = util::Rng::new(seed ^ 0xC0F1);
             let mut cfgs = vec![h.cfg.clone()];
+            if args[7] == "blobdiff" {
+                // the same history on a key-value separated tree and on a standard tree
+                cfgs[0].blob = true;
+                let mut std_cfg = cfgs[0].clone();
+                std_cfg.blob = false;
+                cfgs.push(std_cfg);
+                // further blob trees with other separation settings
+                while cfgs.len() < k {
+                    let mut c = cfgs[0].clone();
+                    c.sep_threshold = *rng.pick(&[1u32, 4, 8, 16, 64]);
+                    c.blob_target = *rng.pick(&[64u64, 256, 1 << 20]);
+                    c.staleness = *rng.pick(&[0.0f32, 0.01, 0.25, 0.9]);
+                    c.age_cutoff = *rng.pick(&[0.0f32, 0.5, 1.0]);
+                    cfgs.push(c);
+                }
+            }
             while cfgs.len() < k {
                 let mut c = gen::rand_cfg(&mut rng, h.cfg.blob);
                 c.cfilter = h.cfg.cfilter;
@@ -84,6 +101,17 @@ fn main() {
                 std::fs::write(format!("{}.{j}.trace", args[4]), t).expect("write");
             }
             let _ = std::fs::remove_dir_all(&base);
+        }
+        Some("corrupt") => {
+            // lsmv corrupt <seed> <scratch> <outfile> <std|blob> <sample|exhaustive> [samples]
+            let seed: u64 = args[2].parse().expect("seed");
+            let scratch = fresh_dir(Path::new(&args[3]), &format!("corrupt-{seed}"));
+            let blob = args[5] == "blob";
+            let exhaustive = args[6] == "exhaustive";
+            let samples: u64 = args.get(7).map_or(12, |s| s.parse().expect("samples"));
+            let text = corrupt::run(seed, &scratch, blob, exhaustive, samples);
+            std::fs::write(&args[4], text).expect("write");
+            let _ = std::fs::remove_dir_all(&scratch);
         }
         Some("tbench") => {
             let seed0: u64 = args[2].parse().expect("seed0");
